@@ -78,6 +78,7 @@ var opArity = map[string]int{
 	"flush":   3,  // a off size
 	"inval":   3,  // a off size
 	"mkpool":  7,  // p type poolFlags blockSize minBlocks maxBlocks minAlign
+	"mkpoolp": 5,  // p type blockSize minBlocks priorityPermille (malformed profile only: PoolCreateInfo.Priority = permille / 1000)
 	"rmpool":  1,  // p
 	"cbuf":    15, // r a size align reqTypeBits requiresDed prefersDed bufUsage usage flags required preferred createTypeBits pool minAlign
 	"cimg":    15, // r a tiling size align reqTypeBits requiresDed prefersDed imgUsage usage flags required preferred createTypeBits pool
